@@ -576,9 +576,10 @@ def check_sink(run, tree):
     meta = {"nout": 7, "path": "PATH", "infile": "PATH/output_00007", "ndim": 3}
     want_file = "PATH/output_00007/sink_00007.csv"
 
-    def run_case(lines, exists=True, size=100, select=True, reader=None, units=None, shared=None, nsinks=3):
+    def run_case(lines, exists=True, size=100, select=True, reader=None, units=None, shared=None, nsinks=3, meta=meta):
         state = {"lines": lines, "exists": exists, "size": size, "paths": [], "loadtxt": [], "open": [], "atleast_2d": 0, "nsinks": nsinks}
         hooks = sink_hooks(state)
+        hooks["ext"]["glob.glob"] = lambda pat, *a, **k: ["PATH/output_00003", "PATH/output_00042"] if pat == "PATH/output*" else []
         if shared is not None:
             hooks["_module_state"] = shared        # module- and class-level objects of the package live as long as the process
         ev = ModelEval(tree, init, {}, hooks)
@@ -590,6 +591,19 @@ def check_sink(run, tree):
     legacy = [" # id,msink,x,y,z\n", " # 1,[Msol],[cm],[cm],[cm]\n"]
     # legacy units spelled like the code-unit letters: [m] is metres and [t] tonnes there, not the code mass and the code time
     legacy_letters = [" # id,msink,x,y,z\n", " # 1,[t],[m],[m],[m]\n"]
+    # the latest output (nout=-1, what RamsesDataset(-1, path) asks for): the sink file of THAT output, named like every other file of it
+    construct = "%s.initialize[latest output: nout=-1]" % SINK
+    try:
+        try:
+            ret, st, _ = run_case(new, meta={"nout": -1, "path": "PATH", "infile": "PATH/output_00042", "ndim": 3})
+            want_latest = "PATH/output_00042/sink_00042.csv"
+            ok = st["paths"][:1] == [want_latest] and len(st["loadtxt"]) == 1 and st["loadtxt"][0][0] == want_latest and isinstance(ret, SinkGroup)
+            run.ob(construct, ok, init.where(), "looks for %s, parses %s (required %s)" % (st["paths"][:1], [x[0] for x in st["loadtxt"]], want_latest),
+                   "RamsesDataset(-1, path).load(): the sink file is looked for under a name built from the number -1 (sink_000-1.csv): the sinks are silently missing")
+        except (Raised, ProgramRaised) as e:
+            run.violated(construct, init.where(), "raises %s" % e, "RamsesDataset(-1, ...)")
+    except ERR as e:
+        run.unresolved(construct, init.where(), "cannot fold: %s" % e)
     for label, lines, nsinks in (("code-unit header", new, 3), ("legacy header with physical units", legacy, 3), ("code-unit header, a single sink", new, 1),
                                  ("legacy header, a single sink", legacy, 1), ("legacy header whose units are the words m and t", legacy_letters, 3)):
         construct = "%s.initialize[%s]" % (SINK, label)
